@@ -13,6 +13,10 @@ Require Import Verif.Lib.Wire.
 Require Export Verif.Model.C11_base.
 Require Import Verif.Gen.Facts_C11.
 
+(* [permission in ace_permissions] after the normalisation idiom, with the two leaf functions as they were
+   regenerated from pyramid/util.py (is_nonstr_iter) and pyramid/security.py (AllPermissionsList.__contains__) *)
+Notation perm_in := (perm_in_with gen_is_nonstr_iter gen_all_contains).
+
 Definition ace_matches (principals : list text) (p : text) (e : ace) : bool :=
   mem_text (who e) principals && perm_in p (what e).
 
@@ -78,8 +82,18 @@ Definition principals_allowed (L : lineage) (p : text) : list text :=
 Definition flatten (L : lineage) : list ace :=
   concat (map (fun o => match o with Some a => a | None => [] end) L).
 
+(* "whose permission set contains the permission (the all-permissions marker contains everything)": a single
+   name contains exactly itself, an iterable its elements, the marker everything, any other object nothing.
+   Independent of the regenerated leaf functions. *)
+Definition perm_has (p : text) (v : perms) : bool :=
+  match v with PAll => true | PNames l => mem_text p l | PStr s => text_eqb p s | PAtom => false end.
+
+(* "whose principal is among the given principals and whose permission set contains the permission" *)
+Definition spec_matches (principals : list text) (p : text) (e : ace) : bool :=
+  mem_text (who e) principals && perm_has p (what e).
+
 Definition first_match (L : lineage) (principals : list text) (p : text) : option ace :=
-  find (ace_matches principals p) (flatten L).
+  find (spec_matches principals p) (flatten L).
 
 Definition spec_granted (L : lineage) (principals : list text) (p : text) : bool :=
   match first_match L principals p with
@@ -87,16 +101,58 @@ Definition spec_granted (L : lineage) (principals : list text) (p : text) : bool
   | None => false
   end.
 
+(* ---- declarative description of principals_allowed_by_permission.
+   The entries that SPEAK ABOUT principal q for permission p: an Allow or Deny entry naming q, or a Deny of Everyone,
+   whose permission set contains p.  q is reported iff the first such entry, context's ACL first, then each
+   ancestor's, is an Allow (Proofs/C11_char.v: principals_allowed_exact). *)
+Definition explicit_for (q p : text) (e : ace) : bool :=
+  perm_has p (what e) &&
+  ((is_allow (act e) || is_deny (act e)) && text_eqb (who e) q || is_deny (act e) && text_eqb (who e) everyone).
+
+Definition explicitly_allowed (L : lineage) (p q : text) : bool :=
+  match find (explicit_for q p) (flatten L) with Some e => is_allow (act e) | None => false end.
+
 Definition wf_action (e : ace) : bool := match act e with Other => false | _ => true end.
 Definition wf_lineage (L : lineage) : bool := forallb wf_action (flatten L).
+
+(* ---- the public routes from a request to the decision (pyramid/security.py; hand-written, tied by the name-blanked
+   shape pins of harness/c11/pins_entry.json).
+   request.has_permission(permission, context=None):
+       if context is None: context = self.context
+       policy = _get_security_policy(self)            -- registry.queryUtility(ISecurityPolicy)
+       if policy is None: return Allowed('No security policy in use.')
+       return policy.permits(self, context, permission)
+   LegacySecurityPolicy.permits(request, context, permission):
+       principals = authn.effective_principals(request); return authz.permits(context, principals, permission)
+   security.principals_allowed_by_permission(context, permission):
+       policy = registry.queryUtility(IAuthorizationPolicy)
+       if policy is None: return [Everyone]
+       return policy.principals_allowed_by_permission(context, permission)
+   [policy] / [authz]: is a security policy / an authorization policy registered; [ps]: what the authentication policy
+   reports as effective principals; the authorization policy is ACLAuthorizationPolicy (regenerated delegation). *)
+Inductive hp_result := ByPolicy (d : decision) | NoPolicyAllowed.
+
+Definition legacy_permits (L : lineage) (ps : list text) (p : text) : decision := gen_policy_permits L ps p.
+
+Definition has_permission (policy : bool) (given : option lineage) (request_context : lineage)
+           (ps : list text) (p : text) : hp_result :=
+  let L := match given with None => request_context | Some L => L end in
+  if policy then ByPolicy (legacy_permits L ps p) else NoPolicyAllowed.
+
+Definition hp_granted (r : hp_result) : bool := match r with ByPolicy d => granted d | NoPolicyAllowed => true end.
+
+Definition sec_principals_allowed (authz : bool) (L : lineage) (p : text) : list text :=
+  if authz then gen_policy_principals_allowed L p else [everyone].
 
 (* ---- wire glue *)
 Definition get_action (v : val) : option action :=
   match v with VI 0%Z => Some Deny | VI 1%Z => Some Allow | VI _ => Some Other | _ => None end.
 Definition get_perms (v : val) : option perms :=
   match v with
-  | VI _ => Some PAll
-  | VL l => match map_opt get_text l with Some ts => Some (PNames ts) | None => None end
+  | VI 0%Z => Some PAll
+  | VI _ => Some PAtom
+  | VL [VI 0%Z; VT s] => Some (PStr s)
+  | VL [VI 1%Z; VL l] => match map_opt get_text l with Some ts => Some (PNames ts) | None => None end
   | _ => None
   end.
 Definition get_ace (v : val) : option ace :=
@@ -115,10 +171,15 @@ Definition put_decision (d : decision) : val :=
   | DefaultDeny => VL [VI 0]
   end.
 
+Definition put_hp (r : hp_result) : val :=
+  match r with ByPolicy d => put_decision d | NoPolicyAllowed => VL [VI 1; VT [110; 111; 45; 112; 111; 108; 105; 99; 121]%N] end.
+
 (* case = [lineage; principals; permission]
    answer = [regenerated permits; regenerated principals_allowed; spec granted; wf;
              hand-written permits; hand-written principals_allowed;
-             regenerated ACLAuthorizationPolicy.permits; regenerated ACLAuthorizationPolicy.principals_allowed_by_permission] *)
+             regenerated ACLAuthorizationPolicy.permits; regenerated ACLAuthorizationPolicy.principals_allowed_by_permission;
+             request.has_permission(p) with request.context = the context; the same without a security policy;
+             security.principals_allowed_by_permission without an authorization policy] *)
 Definition run_C11 (v : val) : val :=
   ret_or_bad (
     match v with
@@ -131,6 +192,9 @@ Definition run_C11 (v : val) : val :=
                   put_decision (permits L ps p);
                   vtexts (principals_allowed L p);
                   put_decision (gen_policy_permits L ps p);
-                  vtexts (gen_policy_principals_allowed L p)])
+                  vtexts (gen_policy_principals_allowed L p);
+                  put_hp (has_permission true None L ps p);
+                  put_hp (has_permission false None L ps p);
+                  vtexts (sec_principals_allowed false L p)])
     | _ => None
     end).
